@@ -8,6 +8,7 @@ import (
 	"os"
 	"strings"
 	"sync"
+	"sync/atomic"
 	"time"
 )
 
@@ -315,6 +316,73 @@ func runStressOne(p *Program, per map[string][]Step) ([]Event, int, error) {
 	return evs, overlaps, nil
 }
 
+// runRaceOne: rounds of "everybody locks the same key at the same moment", one clock unit apart, with locks of one
+// unit: from the second round on the key holds an *expired* entry and the contenders race to take it over (the
+// compare-and-swap of L2InMemoryCache.Lock).  Time windows as in the serial driver (errTiming = re-run, not judged).
+func runRaceOne(p *Program, rounds int, unit time.Duration, r *rand.Rand) ([]Event, error) {
+	s := newMem(p.Cap, p.Owners)
+	s.unit = unit
+	for _, o := range p.Owners {
+		for k := 1; k <= p.NKeys; k++ {
+			s.lockKeys(o, []int{k})
+		}
+	}
+	margin := unit / 10
+	var mu sync.Mutex
+	evs := []Event{{"ev": "TraceStart", "name": p.Name}, {"ev": "Setup", "variant": "mem", "cap": p.Cap, "silent": true}}
+	epoch := time.Now()
+	for T := 0; T < rounds; T++ {
+		if T > 0 {
+			if d := time.Until(epoch.Add(time.Duration(T) * unit)); d > 0 {
+				time.Sleep(d + 200*time.Microsecond)
+			}
+			evs = append(evs, Event{"ev": "Tick"})
+		}
+		k := 1 + r.Intn(p.NKeys)
+		lo := time.Duration(T) * unit
+		late := false
+		var goFlag int32
+		var wg, logged sync.WaitGroup
+		var firstErr error
+		for _, o := range p.Owners {
+			wg.Add(1)
+			logged.Add(1)
+			go func(o string) {
+				defer wg.Done()
+				st := Step{O: o, Op: "Lock", Ks: []int{k}, TTL: 1}
+				mu.Lock()
+				evs = append(evs, Event{"ev": "Begin", "o": o, "op": st.Op, "ks": st.Ks, "ttl": st.TTL})
+				mu.Unlock()
+				logged.Done()
+				for atomic.LoadInt32(&goFlag) == 0 { // spin: a channel wake-up would spread the starts over microseconds
+				}
+				t0 := time.Since(epoch)
+				ok, oth, err := s.doCall(st)
+				t1 := time.Since(epoch)
+				mu.Lock()
+				evs = append(evs, Event{"ev": "Return", "o": o, "ok": ok, "other": oth})
+				if err != nil && firstErr == nil {
+					firstErr = err
+				}
+				if t0 < lo || t1 > lo+unit/2-margin {
+					late = true
+				}
+				mu.Unlock()
+			}(o)
+		}
+		logged.Wait()
+		atomic.StoreInt32(&goFlag, 1)
+		wg.Wait()
+		if firstErr != nil {
+			return nil, firstErr
+		}
+		if late {
+			return nil, errTiming
+		}
+	}
+	return evs, nil
+}
+
 func runStress(c RandCfg, out string) {
 	r := rand.New(rand.NewSource(c.Seed))
 	var all [][]Event
@@ -333,5 +401,55 @@ func runStress(c RandCfg, out string) {
 		}
 		all = append(all, evs)
 	}
-	writeEvents(out, all, map[string]int{"programs": c.Count, "with_overlap": overlapping})
+	// expiry races
+	raced := make([][]Event, c.Race)
+	dropped, retries := 0, 0
+	var mu sync.Mutex
+	var wg sync.WaitGroup
+	sem := make(chan struct{}, 8)
+	var failure error
+	for i := 0; i < c.Race; i++ {
+		no := 2 + r.Intn(c.Owners-1)
+		p := &Program{Name: fmt.Sprintf("race-%d", i), Variant: "mem", Cap: inf, Owners: allOwners[:no], NKeys: 1 + r.Intn(2)}
+		seed := r.Int63()
+		wg.Add(1)
+		sem <- struct{}{}
+		go func(i int) {
+			defer wg.Done()
+			defer func() { <-sem }()
+			unit := 20 * time.Millisecond
+			for try := 0; try < 6; try++ {
+				evs, err := runRaceOne(p, c.Rounds, unit, rand.New(rand.NewSource(seed)))
+				if err == nil {
+					raced[i] = evs
+					return
+				}
+				mu.Lock()
+				if err != errTiming {
+					if failure == nil {
+						failure = err
+					}
+					mu.Unlock()
+					return
+				}
+				retries++
+				mu.Unlock()
+				unit *= 2
+			}
+			mu.Lock()
+			dropped++
+			mu.Unlock()
+		}(i)
+	}
+	wg.Wait()
+	if failure != nil {
+		fatal("race: %v", failure)
+	}
+	for _, evs := range raced {
+		if evs != nil {
+			all = append(all, evs)
+		}
+	}
+	writeEvents(out, all, map[string]int{"programs": c.Count, "with_overlap": overlapping, "race_programs": c.Race,
+		"race_timing_retries": retries, "race_timing_dropped": dropped})
 }
